@@ -3,6 +3,7 @@ CONSTANTS
  BugDupChecks = FALSE  BugIterEmpty = FALSE  BugAppendTotal = FALSE
  NSlots = 3  MaxStreams = 6  MaxRecs = 9
  USizes <- RichU  VSizes <- RichV  Pads <- RichP  FlagSet <- RichF
+ CommonU <- SmallU  CommonV <- SmallV
  Volume = FALSE
  MinSteps = 12  MaxSteps = 12
 CONSTRAINT Emit
